@@ -160,7 +160,7 @@ def finish(ctx, level_text, seed=0):
             known_hits.append(f)
         else:
             violations.append(f)
-    ev_path = os.path.join(VERIF, "evidence", "%s.json" % ctx.prop)
+    ev_path = os.path.join(os.environ.get("IPCV_EVIDENCE_DIR") or os.path.join(VERIF, "evidence"), "%s.json" % ctx.prop)
     os.makedirs(os.path.dirname(ev_path), exist_ok=True)
 
     obligations = sum(r.obligations for r in ctx.rules.values())
